@@ -1,18 +1,13 @@
-import TmVerif.Model.LRCheck
+import TmVerif.Proofs.LRCheckRun
 /-!
 C05 — compressed parser tables decode to the same actions.
 `checkOptimized` is evaluated by the driver on the REAL `lalr.Tables` of every sampled grammar
 (both encodings are decoded in Lean exactly as `go_parser.go.tmpl` does). The theorems say what a
-`true` verdict guarantees, for every table, state and symbol.
+`true` verdict guarantees, for every table, state and symbol — and, lifted to the runtime model of
+`go_parser.go.tmpl` (`Model/LR.lean`), for every whole run on every input.
 -/
 namespace TmVerif.LRCheck
 open TmVerif.LR
-
-theorem cellOk_of_check (t : Tables) (dr : Bool) (h : checkOptimized t dr = true)
-    (s a : Nat) (hs : s < t.nStates) (ha : a < t.nTerms) : cellOk t dr s a = true := by
-  unfold checkOptimized at h
-  simp only [List.all_eq_true, List.mem_range, Bool.and_eq_true] at h
-  exact (h s hs).1 a ha
 
 /-- Without `defaultReduce`: every (state, terminal) cell of the compressed encoding decodes to the
 same shift target or reduction as the uncompressed one, and errors (plain or `%nonassoc`) stay
@@ -74,5 +69,116 @@ theorem C05_no_error_becomes_shift (t : Tables) (dr : Bool) (h : checkOptimized 
     · rw [h1]; simp
     · cases hm : mostFrequent t s <;> simp_all
   · rw [this]; simp
+
+/-! ### whole runs
+
+`run { t with optimized := b }` is the parse loop of the generated parser over the default
+(`b = false`) or the displacement (`b = true`) encoding of the same table set. The two encodings
+fetch the lookahead token at different moments (`needsTok`); the proofs relate the two runs up to
+a forced fetch (`Eqv`, Proofs/LRCheck.lean). Side conditions, all decidable and evaluated by the
+driver on every real table next to `checkOptimized` (answer `hypothesis-fails …` otherwise):
+`tablesWf` (structural sanity of the default encoding), `noBlindShift` (a state of the
+displacement encoding that does not look at the token does not shift), `gotoClosed t preds`
+(certificate that a reduction always finds its goto entry; `mkPreds t` computes `preds`),
+`inputOk` (token symbols are terminals). -/
+
+/-- Without `defaultReduce`, for every input, entry state and fuel the two encodings produce the
+same result — accept, syntax error with the same error-token range, runtime panic, out of fuel —
+and the same trace of shifts and reductions (with the same ranges). -/
+theorem C05_runs_equal (t : Tables) (preds : Array (List Nat))
+    (h : checkOptimized t false = true) (hwf : tablesWf t = true) (hnb : noBlindShift t = true)
+    (hgc : gotoClosed t preds = true) (inp : Input) (hin : inputOk t inp = true) (i fuel : Nat) :
+    (run { t with optimized := false } inp i fuel).1 = (run { t with optimized := true } inp i fuel).1 ∧
+    (run { t with optimized := false } inp i fuel).2.evs =
+      (run { t with optimized := true } inp i fuel).2.evs := by
+  rcases run_sim h hwf hnb hin i fuel with h1 | ⟨_, h2⟩ | ⟨h3, _⟩
+  · exact h1
+  · exact absurd (noMiss_of_gotoClosed hgc) h2
+  · cases h3
+
+/-- The same without the goto certificate: the runs agree unless the default-encoding run died in
+a reduction whose goto entry does not exist (`gotoState` returned -1, visible as final state -1):
+`checkOptimized` compares existing gotos only, the displacement encoding answers such a query with
+the nonterminal's default target. -/
+theorem C05_runs_equal_or_goto_missing (t : Tables)
+    (h : checkOptimized t false = true) (hwf : tablesWf t = true) (hnb : noBlindShift t = true)
+    (inp : Input) (hin : inputOk t inp = true) (i fuel : Nat) :
+    (run { t with optimized := false } inp i fuel).2.state = -1 ∨
+    ((run { t with optimized := false } inp i fuel).1 = (run { t with optimized := true } inp i fuel).1 ∧
+     (run { t with optimized := false } inp i fuel).2.evs =
+      (run { t with optimized := true } inp i fuel).2.evs) := by
+  rcases run_sim h hwf hnb hin i fuel with h1 | ⟨h2, _⟩ | ⟨h3, _⟩
+  · exact Or.inr h1
+  · exact Or.inl h2
+  · cases h3
+
+/-- With `defaultReduce`: the two runs agree (result and trace) unless the default-encoding run
+ends in a syntax error; in that case the trace of the default run is an initial part of the trace
+of the displacement run (`evs` lists the most recent event first) — the compressed parser does
+everything the uncompressed one did and may go on reducing before it reports. In particular every
+accepted input is accepted with the same trace. -/
+theorem C05_runs_equal_default_reduce_partial (t : Tables) (preds : Array (List Nat))
+    (h : checkOptimized t true = true) (hwf : tablesWf t = true) (hnb : noBlindShift t = true)
+    (hgc : gotoClosed t preds = true) (inp : Input) (hin : inputOk t inp = true) (i fuel : Nat) :
+    ((run { t with optimized := false } inp i fuel).1 = (run { t with optimized := true } inp i fuel).1 ∧
+     (run { t with optimized := false } inp i fuel).2.evs =
+      (run { t with optimized := true } inp i fuel).2.evs) ∨
+    ((∃ off endo, (run { t with optimized := false } inp i fuel).1 = .syntaxError off endo) ∧
+     (run { t with optimized := false } inp i fuel).2.evs <:+
+      (run { t with optimized := true } inp i fuel).2.evs) := by
+  rcases run_sim h hwf hnb hin i fuel with h1 | ⟨_, h2⟩ | ⟨_, h3⟩
+  · exact Or.inl h1
+  · exact absurd (noMiss_of_gotoClosed hgc) h2
+  · exact Or.inr h3
+
+/-- The statement `C05_runs_equal_default_reduce_partial` falls short of: when the default run
+reports a syntax error, the displacement run reports it at the same token after reductions only.
+It does not follow from the cell comparison: that the states reached by the extra reductions
+reject the offending token as well is a property of the LALR lookahead sets (the token is in no
+lookahead set of the reduced rule), which `checkOptimized` does not see. -/
+def C05_runs_equal_default_reduce_full : Prop :=
+  ∀ (t : Tables) (preds : Array (List Nat)), checkOptimized t true = true → tablesWf t = true →
+    noBlindShift t = true → gotoClosed t preds = true → ∀ (inp : Input), inputOk t inp = true →
+    ∀ (i fuel : Nat) (off endo : Nat),
+      (run { t with optimized := false } inp i fuel).1 = .syntaxError off endo →
+      ((run { t with optimized := true } inp i fuel).1 = .syntaxError off endo ∨
+       (run { t with optimized := true } inp i fuel).1 = .fuel) ∧
+      ∃ extra, (run { t with optimized := true } inp i fuel).2.evs =
+          extra ++ (run { t with optimized := false } inp i fuel).2.evs ∧
+        ∀ e ∈ extra, ∃ r o e', e = Ev.reduce r o e'
+
+theorem C05_accept_default_reduce (t : Tables) (preds : Array (List Nat))
+    (h : checkOptimized t true = true) (hwf : tablesWf t = true) (hnb : noBlindShift t = true)
+    (hgc : gotoClosed t preds = true) (inp : Input) (hin : inputOk t inp = true) (i fuel : Nat)
+    (hacc : (run { t with optimized := false } inp i fuel).1 = .accept) :
+    (run { t with optimized := true } inp i fuel).1 = .accept ∧
+    (run { t with optimized := false } inp i fuel).2.evs =
+      (run { t with optimized := true } inp i fuel).2.evs := by
+  rcases C05_runs_equal_default_reduce_partial t preds h hwf hnb hgc inp hin i fuel with h1 | ⟨⟨o, e, h2⟩, _⟩
+  · exact ⟨by rw [← h1.1, hacc], h1.2⟩
+  · rw [hacc] at h2; cases h2
+
+/-! ### non-vacuity: real tables of `S : ;` (case 3 of a quick run), both encodings -/
+
+def exTables : Tables :=
+  { nTerms := 4, action := #[-3, -1, -2], lalr := #[0, 0, -1, -2], goto_ := #[0, 2, 2, 2, 2, 4],
+    fromTo := #[1, 2, 0, 1], ruleLen := #[0], ruleSymbol := #[4], finalStates := #[2],
+    oDefGoto := #[-1], oGoto := #[2], oDefAct := #[-1, -1, -1], oAction := #[0, 1, -4],
+    oBase := -4, oTable := #[0, -4, 1], oCheck := #[0, 0, 0] }
+
+example : checkOptimized exTables false = true ∧ checkOptimized exTables true = true ∧
+    tablesWf exTables = true ∧ noBlindShift exTables = true ∧
+    gotoClosed exTables (mkPreds exTables) = true ∧
+    inputOk exTables ⟨#[], 0⟩ = true ∧ inputOk exTables ⟨#[⟨1, 0, 1⟩], 1⟩ = true := by
+  decide +kernel
+
+/-- the empty input is accepted by both encodings with the trace reduce, shift EOI; the input `1`
+is a syntax error at the token in both -/
+example : (run { exTables with optimized := false } ⟨#[], 0⟩ 0 10).1 = .accept ∧
+    (run { exTables with optimized := true } ⟨#[], 0⟩ 0 10).1 = .accept ∧
+    (run { exTables with optimized := true } ⟨#[], 0⟩ 0 10).2.evs = [.shift 0 0 0, .reduce 0 0 0] ∧
+    (run { exTables with optimized := false } ⟨#[⟨1, 0, 1⟩], 1⟩ 0 10).1 = .syntaxError 0 1 ∧
+    (run { exTables with optimized := true } ⟨#[⟨1, 0, 1⟩], 1⟩ 0 10).1 = .syntaxError 0 1 := by
+  decide +kernel
 
 end TmVerif.LRCheck
